@@ -664,6 +664,12 @@ pub fn generate(seed: u64, tier: Tier, p: &Profile) -> Scenario {
                 let mut w2 = wit.clone();
                 w2.red = g.next_red();
                 w2.signers = None;
+                if g.r.chance(1, 2) {
+                    // the script offered by mistake may be one that nothing else in the transaction uses (its
+                    // language must not leak into the script data hash), inline
+                    w2.script = *g.r.pick(&g.plutus_ids.clone());
+                    w2.how = ScriptUse::Witness;
+                }
                 w2.datum = match &w2.datum {
                     DatumUse::Ref(_) => DatumUse::None,
                     d => d.clone(),
@@ -692,7 +698,7 @@ pub fn generate(seed: u64, tier: Tier, p: &Profile) -> Scenario {
             } else {
                 None
             };
-            plan.pre.push(Op::InScript { utxo: u, wit, by_utxo: g.r.chance(1, 2), mistaken });
+            plan.pre.push(Op::InScript { utxo: u, wit, by_utxo: g.r.chance(1, 2), mistaken: mistaken.map(|m| if g.r.chance(1, 3) { m | 0x4000 } else { m }) });
             plan.uses_plutus = true;
             plan.langs |= 1 << (lang - 1);
             explicit_value += coin as u128;
@@ -1019,6 +1025,11 @@ pub fn generate(seed: u64, tier: Tier, p: &Profile) -> Scenario {
                 _ => MetaSpec::Metadatum(g.r.below(1 << 20), g.r.below(255) as u8),
             };
             plan.pre.push(Op::Meta(m));
+        }
+        if g.r.chance(1, 5) {
+            // metadata and nothing else, in the post-Alonzo container (tag 259 around a map with key 0 only)
+            plan.pre_tail.push(Op::Meta(MetaSpec::Metadatum(g.r.below(1 << 20), g.r.below(255) as u8)));
+            plan.pre_tail.push(Op::Meta(MetaSpec::AuxScripts { native: vec![], plutus: vec![], prefer_alonzo: true }));
         }
     }
     if pm(&mut g.r, p.req_signers) {
@@ -1373,6 +1384,20 @@ pub fn generate(seed: u64, tier: Tier, p: &Profile) -> Scenario {
         }
     }
 
+    // the collateral may overlap with the rest of the transaction (legal: only spent and reference inputs must be
+    // disjoint): a UTxO that is also spent / on offer, or the holder of a script or datum that is used by reference
+    if !coll_ops.is_empty() && g.r.chance(1, 5) {
+        let mut cands: Vec<usize> = g.ref_holder.values().cloned().chain(g.datum_holder.values().cloned()).collect();
+        if let Some(u) = off.first() {
+            cands.push(*u);
+        }
+        cands.retain(|u| g.w.utxos[*u].assets.is_empty() && matches!(g.w.utxos[*u].addr.pay_cred(), Some(Cred::Key(_))));
+        if !cands.is_empty() {
+            let u = *g.r.pick(&cands);
+            // first among the collateral inputs, so that the checked calls that follow see it
+            coll_ops.insert(0, Op::CollUtxo(u));
+        }
+    }
     // ---- assemble the history
     let mut ops: Vec<Op> = vec![];
     let mut pre = std::mem::take(&mut plan.pre);
@@ -1661,6 +1686,7 @@ pub fn declared_keys(sc: &Scenario, h: &History, upto_op: usize, required_script
         }
     }
     out.extend(extra);
+    out.extend(h.told_keys.iter().filter(|(i, _)| *i < upto_op).map(|(_, k)| k.clone()));
     out
 }
 
